@@ -20,7 +20,7 @@ type C03 struct {
 	price map[string]math.LegacyDec
 }
 
-func NewC03() *C03          { return &C03{st: NewStats("C03")} }
+func NewC03() *C03           { return &C03{st: NewStats("C03")} }
 func (m *C03) Stats() *Stats { return m.st }
 
 func (m *C03) AroundModule(w *chain.World, ctx sdk.Context, module, phase string, before bool) {
